@@ -17,6 +17,13 @@
      C17_wellformed_total     for EVERY text (valid program or not, any syntax errors) the analysed
                               document satisfies [fold_pre] (Proofs/TotalFold.v), hence the handler
                               answers and its ranges are well-formed - no hypothesis left
+     C17_clean                the property for every document whose PARSE carries no diagnostic and whose
+                              tokens carry no lexical error (table / semantic diagnostics allowed): by the
+                              completeness of the parser (Proofs/CompleteProg.v [parse_complete]) the token
+                              vector is derivable in the grammar, the parse is the mandated tree, and the
+                              ranges are (line of `proc`, line of the closing brace) per procedure of the
+                              derivation - C17_valid without naming an abstract program
+     C17_clean_doc            the same for documents without any diagnostic ([clean_doc] of Spec/Nav.v)
    [fold_pre] / [tree_pre] are still evaluated by the judge on every document of the check. *)
 From Coq Require Import String.
 From Spl Require Import Model.Fold Spec.LspText Spec.Grammar Proofs.FoldProofs Proofs.FoldValid Proofs.TotalFold.
@@ -145,4 +152,40 @@ Example C17_valid_ex :
      | ODone d => fold d = ROk [(1, 2); (4, 6)]
      | _ => False
      end.
+Proof. vm_compute. repeat split; reflexivity. Qed.
+
+(* 6. ... in the wording "document without syntax error": the abstract program need not be given - a parse
+   without diagnostic IS the parse of a derivation (Proofs/CompleteProg.v), provided no token carries a lexical
+   error (an integer literal above u32 is not a token of the grammar; lexical errors are not part of the tree's
+   diagnostics).  p0 is the tree the parser builds; table construction and semantic analysis may then attach
+   any diagnostics (d_ast d is p0 with those). *)
+From Spl Require Import Model.Parser Model.Errors Spec.Nav Proofs.CompleteFeatures.
+
+Theorem C17_clean : forall (t : text) (toks : list token) (p0 : program) (d : doc),
+  lex t = Some toks -> parse toks = Done p0 -> tree_errors p0 = [] ->
+  forallb (fun tok => match terr tok with [] => true | _ => false end) toks = true ->
+  new_doc_res t = ODone d ->
+  exists p, prog_ok p = true /\ map tk toks = flatten p ++ [Eof] /\ p0 = expected p /\
+    exists rs, fold d = ROk rs /\ Forall2 (extent_rel t toks) (proc_spans 0 (a_decls p)) rs.
+Proof. exact fold_syntax_clean. Qed.
+Print Assumptions C17_clean.
+
+Theorem C17_clean_doc : forall (t : text) (d : doc), clean_doc t d ->
+  exists p, prog_ok p = true /\ map tk (d_toks d) = flatten p ++ [Eof] /\ d_ast d = expected p /\
+    exists rs, fold d = ROk rs /\ Forall2 (extent_rel t (d_toks d)) (proc_spans 0 (a_decls p)) rs.
+Proof. exact fold_clean. Qed.
+Print Assumptions C17_clean_doc.
+
+(* non-vacuity: the valid example has no diagnostic at all; `proc a() { x := 1; }` LF `proc b() {` LF `}` parses
+   without diagnostic and carries semantic ones (x undefined, main missing): C17_clean applies, C17_clean_doc not *)
+Example C17_clean_ex :
+  is_clean c17_prog_text = true /\
+  let t := str "proc a() { x := 1; }" ++ [10] ++ str "proc b() {" ++ [10] ++ str "}" in
+  match lex t, new_doc_res t with
+  | Some toks, ODone d =>
+      match parse toks with Done p0 => tree_errors p0 = [] | _ => False end /\
+      forallb (fun tok => match terr tok with [] => true | _ => false end) toks = true /\
+      is_clean t = false /\ fold d = ROk [(0, 0); (1, 2)]
+  | _, _ => False
+  end.
 Proof. vm_compute. repeat split; reflexivity. Qed.
